@@ -26,9 +26,13 @@ def register(db):
 
     # ---- actor_run: every outcome of user code becomes an ActorResult
     db.contract(
-        fn=PROC + "actor_run", serves=["C02", "C13", "C18"], clock=["t0", "t1"],
-        ghost_init={"eager": "int", "invocations": "int", "last_ret": "opaque", "trace": "events"},
+        fn=PROC + "actor_run", serves=["C02", "C13", "C18", "C09"], clock=["t0", "t1"],
+        clause_props={"ensures:no_invocation_outlives_the_call": ["C09", "C02"], "*": ["C02", "C13", "C18"]},
+        ghost_init={"eager": "int", "invocations": "int", "last_ret": "opaque", "trace": "events", "open_invocations": "int"},
         ensures={
+            # C09: the runner counts processing tasks, the property counts actor invocations in progress: they agree only
+            # if no invocation is still running when actor_run returns (asyncio.wait_for cancels and awaits it on timeout)
+            "no_invocation_outlives_the_call": "ghost.open_invocations == old(ghost.open_invocations)",
             "eager_iff_done": "result.reporting_done == (ghost.eager == old(ghost.eager) + 1)",
             "eager_at_most_one": "ghost.eager == old(ghost.eager) or ghost.eager == old(ghost.eager) + 1",
             "invoked_at_most_once": "ghost.invocations <= old(ghost.invocations) + 1",
@@ -40,7 +44,7 @@ def register(db):
             "worker_touches_no_broker": "len(trace) == 0",
         },
         raises=[],   # no Exception escapes: the worker survives every actor outcome
-        modifies=["ghost.eager", "ghost.invocations", "ghost.last_ret"],
+        modifies=["ghost.eager", "ghost.invocations", "ghost.last_ret", "ghost.open_invocations"],
         loops={0: LoopInv(header="for (dep_name, dep) in actor.converter.dependencies.items()",
                           invariant=["ghost.eager == old(ghost.eager)", "ghost.invocations == old(ghost.invocations)"],
                           modifies={"unresolved_dependencies": "map[str, opaque]"})},
